@@ -28,6 +28,7 @@ RULE = ("(a) exhaustive: all 11x11 ordered pairs of energy units x 15 accessor p
         "Hamiltonian, remainder coupling and tensor; (d') Hamiltonian builders of molecules with 1-2 modes called (first, recalculating, through an aggregate) inside 7 unit contexts vs outside; (e) the repository's own unit tests (qrv/stable_tests.json) run in-process as a workload for the leak "
         "detector: every library frame they reach must return with the units it was entered with (a failing test is not a verdict). distinct = (accessor, u1, u2) / (program shape) / (entry point, context); non-trivial iff u1 != u2, "
         "program depth >= 2, or the entry point was entered under a non-internal unit.")
+RULE = RULE + " Round-6 workloads: entry points include copy, sums, in-place sums and transforms of every bath-function type (Overdamped, high-temperature, Underdamped) x {CorrelationFunction, SpectralDensity}."
 ASSUMPTIONS = ["Manager.convert_frequency_* has no context that activates it and no managed accessor: not claimed",
                "results that depend on the active units (e.g. thermal states requested inside a 1/cm context) are outside the statement; "
                "only accessor round trips and the units active after a call are judged",
